@@ -15,6 +15,7 @@
 import Ctrmml.Proofs.Seek
 import Ctrmml.Proofs.SeekAlive
 import Ctrmml.Proofs.SeekEnd
+import Ctrmml.Proofs.SeekFrom
 namespace Ctrmml.C12
 open Ctrmml Player PlayerCh
 
@@ -214,5 +215,79 @@ example : obs1 (skipTicks exSong exRoot pdAll 20 initPS) = obs1 (iter (playTick 
 example : (iter (playTick exSong exRoot pdAll) 21 initPS).acc.enabled = false ∧
     (iter (playTick exSong exRoot pdAll) 21 initPS).acc.playTime = 14 ∧
     (skipTicks exSong exRoot pdAll 20 initPS).acc.playTime = 20 := by decide +kernel
+
+/-! ## Round 3, part 1: seeks on a player that is not fresh -/
+
+/-- every state left by at least one `play_tick()` (from any state) is settled: a duration is
+pending, or the track has stopped, or an error is recorded.  No aliveness is needed. -/
+theorem C12_played_settled (song : Song) (root : List Event) (pd : Int → Bool) (m : Nat) (s : PS) :
+    isSettled (iter (playTick song root pd) (m + 1) s) = true := by
+  have hpt : playTick song root pd = playTickS song root pd := funext (playTick_eq song root pd)
+  rw [hpt]
+  exact iter_succ_settled song root pd m s
+
+/-- **Seeking = playing from any settled state.**  For a settled state `s` (not necessarily
+fresh) and every `n ≥ 1` such that the track is alive after `n - 1` single ticks from `s`,
+`skip_ticks(n)` leaves exactly the state of `n` calls of `play_tick()`: from a settled state there
+is NO off-by-one.  (The `n+1` of `C12_seek_eq_play` comes only from the fresh player being
+unsettled: its first `play_tick()` fetches the first event without letting time pass, and
+`skip_ticks` does the same fetch in the first round of its loop.) -/
+theorem C12_seek_eq_play_from (song : Song) (root : List Event) (pd : Int → Bool) (s : PS)
+    (hs : isSettled s = true) (n : Nat) (hn : n ≥ 1)
+    (halive : alive (iter (playTick song root pd) (n - 1) s)) :
+    skipTicks song root pd n s = iter (playTick song root pd) n s := by
+  have hpt : playTick song root pd = playTickS song root pd := funext (playTick_eq song root pd)
+  rw [hpt] at halive ⊢
+  have hall := alive_of_leS song root pd (n - 1) s halive
+  exact skipTicks_eq_iter_of_settled song root pd n s hs (hall 0 (by omega))
+    (fun k hk => hall k (by omega))
+
+/-- **Seeking after playing.**  After `m+1` single ticks on a fresh player (any `m`), a seek by
+`n ≥ 1` leaves the state of `m+1+n` single ticks, provided the track is alive after `m+n` ticks
+(the last tick before the landing one). -/
+theorem C12_seek_eq_play_after_play (song : Song) (root : List Event) (pd : Int → Bool) (m n : Nat)
+    (hn : n ≥ 1) (halive : alive (iter (playTick song root pd) (m + n) initPS)) :
+    skipTicks song root pd n (iter (playTick song root pd) (m + 1) initPS)
+      = iter (playTick song root pd) (m + 1 + n) initPS := by
+  rw [iter_add (playTick song root pd) (m + 1) n initPS]
+  apply C12_seek_eq_play_from song root pd _ (C12_played_settled song root pd m initPS) n hn
+  rw [← iter_add (playTick song root pd) (m + 1) (n - 1) initPS]
+  have : m + 1 + (n - 1) = m + n := by omega
+  rw [this]; exact halive
+
+/-- the same up to `obs` when only "no error" is known: `s` settled and alive, no error after
+`n - 1` ticks from `s` -/
+theorem C12_seek_eq_play_from_noerr (song : Song) (root : List Event) (pd : Int → Bool) (s : PS)
+    (hs : isSettled s = true) (hal : alive s) (n : Nat) (hn : n ≥ 1)
+    (hnoerr : (iter (playTick song root pd) (n - 1) s).err = none) :
+    obs (skipTicks song root pd n s) = obs (iter (playTick song root pd) n s) := by
+  have hpt : playTick song root pd = playTickS song root pd := funext (playTick_eq song root pd)
+  rw [hpt] at hnoerr ⊢
+  have hall := err_of_leS song root pd (n - 1) s hnoerr
+  exact skipTicks_obs_iter_of_settled song root pd n s hs hal (fun k hk => hall k (by omega))
+
+theorem alive_of_le (song : Song) (root : List Event) (pd : Int → Bool) (n : Nat) (s : PS)
+    (h : alive (iter (playTick song root pd) n s)) (k : Nat) (hk : k ≤ n) :
+    alive (iter (playTick song root pd) k s) := by
+  have hpt : playTick song root pd = playTickS song root pd := funext (playTick_eq song root pd)
+  rw [hpt] at h ⊢
+  exact alive_of_leS song root pd n s h k hk
+
+/-- the round-2 example track: seek 3 after 4 played ticks = 7 played ticks; the hypothesis
+(alive after 6 ticks) follows from `C12_example_alive` -/
+example : skipTicks exSong exRoot pdAll 3 (iter (playTick exSong exRoot pdAll) 4 initPS)
+    = iter (playTick exSong exRoot pdAll) 7 initPS :=
+  C12_seek_eq_play_after_play exSong exRoot pdAll 3 3 (by decide)
+    (alive_of_le exSong exRoot pdAll 8 initPS C12_example_alive 6 (by decide))
+
+/-- evaluated: the player is at time 3 (inside the first pass of the loop, on `d`) before the
+seek and at time 6 afterwards (second pass, inside the on-time of `c`, transpose applied once) -/
+theorem C12_example_from_lands :
+    let s0 := iter (playTick exSong exRoot pdAll) 4 initPS
+    let s := skipTicks exSong exRoot pdAll 3 s0
+    s0.acc.playTime = 3 ∧ s0.ch.lastNote = 2 ∧ isSettled s0 = true ∧
+    s.acc.playTime = 6 ∧ s.ch.lastNote = 1 ∧ getCh s.ch Tables.ev_TRANSPOSE = 2 ∧
+    s = iter (playTick exSong exRoot pdAll) 7 initPS := by
+  decide +kernel
 
 end Ctrmml.C12
